@@ -56,10 +56,15 @@ def gen(seed, tier="quick"):
     dt_imu = knobs.choice([1, 1, 2, 2, 4]) * dt_sim
     while dt_imu > 0.005 + 1e-12:
         dt_imu -= dt_sim
-    dt_mag = knobs.choice([dt_imu, 2 * dt_imu, 0.02, 0.05, 0.1, knobs.uniform(dt_imu, 0.1)])
+    if knobs.random() < 0.12:
+        dt_imu = knobs.choice([0.25, 0.5]) * dt_sim  # a sensor period below the simulation step: published every step
+    dt_mag = knobs.choice([dt_imu, 2 * dt_imu, 0.02, 0.05, 0.1, knobs.uniform(dt_imu, 0.1), 0.4 * dt_sim])
     decl = knobs.uniform(-0.5, 0.5)
     incl = knobs.uniform(-1.2, 1.2)
     tf = 30.0 if tier == "quick" else knobs.choice([30.0, 40.0])
+    # configured gravity: the same value for the simulator and the estimator; the initialiser's validity
+    # gate is hard-wired to 9.8 +- 1, so the supported range stays well inside it
+    g_cfg = knobs.choice([9.8, 9.8, 9.80665, knobs.uniform(9.3, 10.3)])
     return {
         "family": NAME,
         "seed": seed,
@@ -75,6 +80,8 @@ def gen(seed, tier="quick"):
             "sim/mag_decl": decl,
             "mrp/mag_decl": decl,
             "sim/mag_str": knobs.uniform(0.05, 0.65),
+            "sim/g": g_cfg,
+            "mrp/g": g_cfg,
             "sim/enable_noise": False,
             "logger/dt": knobs.choice([1 / 400, 1 / 200, 1 / 100, 1 / 50, 1 / 20, knobs.uniform(1 / 400, 1 / 20)]),
             "mrp/dt_min_accel": knobs.choice([0.0, 1 / 200, 0.01, knobs.uniform(0, 0.05)]),
@@ -130,7 +137,7 @@ def run(scn):
     state = {"core": None, "q_true": None, "t_true": None, "n_imu": 0, "n_mag": 0, "n_att": 0, "n_est": 0,
              "mag_rot_checked": 0, "worst_accel_norm": 0.0, "worst_mag_norm": 0.0, "worst_rot": 0.0, "codes": {}}
     P = scn["params"]
-    g = 9.8
+    g = float(P.get("sim/g", 9.8))
     mag_str = P["sim/mag_str"]
     B_n = rm.Rz(P["sim/mag_decl"]) @ rm.Ry(-P["sim/mag_incl"]) @ np.array([mag_str, 0, 0])
 
